@@ -167,6 +167,15 @@ impl<'a> SendTransactionsProofProcess<'a> {
                 let witnesses_root = filtered_block.witnesses_root();
                 let proof = filtered_block.proof();
                 let indices: Vec<u32> = proof.indices().into_iter().map(|v| v.unpack()).collect();
+                // The merkle proof library computes `index + 1` on these peer-supplied positions.
+                if indices.contains(&u32::MAX) {
+                    let errmsg = format!(
+                        "failed to verify the transactions merkle proof of filtered block {:#x} \
+                        since a position overflows",
+                        filtered_block.header().calc_header_hash()
+                    );
+                    return StatusCode::InvalidProof.with_context(errmsg);
+                }
                 let lemmas: Vec<packed::Byte32> = proof.lemmas().into_iter().collect();
                 let merkle_proof = MerkleProof::new(indices, lemmas);
                 match merkle_proof
